@@ -69,7 +69,9 @@ contract("xdoctest.core:package_calldefs#glue",
                                         "implies(ev_count('parse_calldefs') == 1, " + _PC % "module_identifier" + " == module_identifier and "
                                         + _PC % "analysis" + " is analysis) and "
                                         "ev_count('yield') == (1 if (ev_count('parse_calldefs') == 1 and ev_outcome('parse_calldefs', 0) == 'normal' "
-                                        "and " + _PC % "result" + " is not None) else 0)"),
+                                        "and " + _PC % "result" + " is not None) else 0) and "
+                                        "implies(ev_count('yield') == 1, ev_arg('yield', 0, 'value')[1] == module_identifier and "
+                                        "ev_arg('yield', 0, 'value')[0] is " + _PC % "result" + ")"),
                                        ("only-excluded-or-missing-modules-are-passed-over",
                                         "implies(ev_count('parse_calldefs') == 0, "
                                         "any(S.fnmatch(modname, pat) for pat in exclude) or not S.fs_exists(module_identifier))")])},
